@@ -103,6 +103,7 @@ def generate(run_seed, tier):
            'mols': mols, 'pairs': pairs, 'cia_dirs': cia_dirs,
            'kmols': kmols, 'kt_dirs': kt_dirs,
            'cia_split': c.random() < 0.6, 'exo_orders': True,
+           'hdf5_variants': True,
            'logmag': c.choice([[-40, 0], [-30, -18], [-24, -20]])}
     o = st('ops')
     n = o.randint(4, 40 if tier == 'quick' else 120)
@@ -151,6 +152,10 @@ def generate(run_seed, tier):
             ops.append(['set_kt_path', o.randrange(2)])
         else:
             ops.append(['get_kt', o.choice(kmols), o.random(), o.random()])
+        if o.random() < 0.06:
+            ops.append([o.choice(['list_mols', 'list_mols', 'list_kt',
+                                  'load_list'])] +
+                       [o.sample(allm, o.randint(1, 3))])
     return {'config': cfg, 'ops': ops}
 
 
@@ -337,7 +342,11 @@ def execute(case, keep_text=False):
         if rec['fmt'] == 'pickle':
             ST.write_pickle_xsec(path, tab)
         elif rec['fmt'] == 'hdf5':
-            ST.write_hdf5_xsec(path, tab, rec['mol'], rec['unit'])
+            var = 0
+            if cfg.get('hdf5_variants'):
+                var = H(cfg['tabseed'], 'h5-variant', rec['file']) % 4
+                out.bump('faults', 'hdf5_layout_variant_%d' % var)
+            ST.write_hdf5_xsec(path, tab, rec['mol'], rec['unit'], var)
         else:
             order = 'asc'
             if cfg.get('exo_orders'):
@@ -534,6 +543,43 @@ def execute(case, keep_text=False):
                                               'dir': None}
                     else:
                         out.bump('probes', 'add_over_served')
+                elif k == 'load_list':
+                    # several in-memory opacities handed over at once
+                    objs = []
+                    for mol in op[1]:
+                        ref['memcount'] += 1
+                        tab = xtab(mol, 1000 + ref['memcount'])
+                        obj = R.MemOpacity(mol, tab['wn'], tab['T'], tab['P'],
+                                           tab['x'],
+                                           interpolation_mode=ref['interp'])
+                        objs.append(obj)
+                        if mol not in ref['served']:
+                            ref['served'][mol] = {'obj': obj, 'tab': tab,
+                                                  'fmt': 'mem', 'gen': -1,
+                                                  'dir': None}
+                    OpacityCache().load_opacity(opacities=objs)
+                elif k == 'list_mols':
+                    got = set(OpacityCache().find_list_of_molecules())
+                    want = set(ref['served'])
+                    if ref['path'] is not None:
+                        want |= set(r['mol'] for r in store[ref['path']])
+                    if got != want:
+                        viol('listing', 'xsec', 'molecules available: cache '
+                             'says %s, configured path and loaded objects '
+                             'give %s' % (sorted(got), sorted(want)), step)
+                        raise Stop()
+                    out.bump('steps', 'listings')
+                elif k == 'list_kt':
+                    if ref['kt_path'] is None:
+                        continue
+                    got = set(KTableCache().find_list_of_molecules())
+                    want = set(f['mol'] for f in cfg['kt_dirs'][ref['kt_path']])
+                    if got != want:
+                        viol('listing', 'ktable', 'k-tables available: cache '
+                             'says %s, configured path holds %s'
+                             % (sorted(got), sorted(want)), step)
+                        raise Stop()
+                    out.bump('steps', 'listings')
                 elif k == 'replace_file':
                     i = op[1] % len(dirpaths)
                     recs = [r for r in store[i] if r['mol'] == op[2]]
